@@ -37,6 +37,7 @@ Mon ==
   /\ (E.status = "nil" /\ q.entry = "File.Save" /\ E.after # "new") => Report("C10", "saved file differs from the output")
   /\ (E.status = "nil" /\ renderFails) => Report("C10", "nil although the rendering is not valid Go " \o key)
   /\ (E.status = "panic") => Report("C10", "panic " \o key)
+  /\ (E.stdbuf # "ok") => Report("C10", "a writer of the standard library as the caller's writer: " \o E.stdbuf \o " " \o key)
   /\ (~E.canary) => Report("C10", "a later, unrelated render does not receive exactly its output after " \o key \o " " \o E.status)
   /\ (~renderFails /\ ~E.wroteerr /\ q.entry # "File.Save" /\ E.status # "nil") => Report("C10", "spurious error " \o key)
   /\ (~renderFails /\ q.entry = "File.Save" /\ q.target \in {"absent", "present", "nearsame"} /\ E.status # "nil") => Report("C10", "spurious error " \o key)
